@@ -159,3 +159,11 @@ def check(cx):
     # ---- C18.4 decision table -------------------------------------------------------------------------------
     r4 = cx.rule("C18.4", "DEC: decision table of TupleLayout::is_valid_for_snapshot equals the reference", floor=1)
     dec_refs.check_valid_for_snapshot(cx, r4, p)
+
+    # ---- C18.5 / C18.6 (constructs shared with C04.7 and C13.1) ---------------------------------------------------------
+    from . import c04, c13
+    cx.include(c04, {"C04.7"}, "C18.5", "shared with C04.7: the deleter stamp of a version is written once (a second deleter never "
+               "overwrites the first), so the stamp a snapshot decodes against is the stamp of the transaction that deleted", floor=1)
+    cx.include(c13, {"C13.1"}, "C18.6", "shared with C13.1: VACUUM, which forgets the aborted ids, removes a version only after asking "
+               "for the fate of its stamps and persists the removal of a rolled-back deletion mark; otherwise a version decodes "
+               "to nothing for every later snapshot although no committed transaction deleted it", floor=3)
